@@ -141,6 +141,14 @@ CLAIMS["C16"] = (
     "change => Rejected report on a foreign object) is a known finding.",
     ARB_NOTE + " Events and status writes are taken to be a function of the returned changes/problems; Policies' class filter is covered by C08.", "DESIGN.md 7 C16")
 
+CLAIMS["C05"] = (
+    "Accumulated-report specification (last report per object derived from the real change and problem lists; active <=> last report is a success; validation error reported in the same step) evaluated in Rocq "
+    "on every step of every generated history of the real Configuration; Rocq model of the problem producers and delta suppression tied by correspondence",
+    "The decidable truthfulness specification is evaluated by the Rocq kernel (vm_compute) on the implementation's own change/problem lists after every event of every generated history (5000 histories in the thorough "
+    "tier), and the problem producers, delta suppression and change lists are covered by the step-by-step correspondence with the model; machine-checked so far: the applied state and problem inputs are a function of "
+    "the object set. The invariant over all histories (C05_truthful) is stated in DESIGN.md and not yet proved (partial).",
+    ARB_NOTE + " The mapping from changes/problems to events and status writes (processChanges / processProblems) is transcribed, not executed; converted cert-manager challenge Ingresses are excluded.", "DESIGN.md 7 C05")
+
 NOT_YET = {}
 
 
